@@ -226,6 +226,7 @@ def FSpec.nums : FSpec → List Nat
   | .repMsg n _ => [n]
   | .oneof alts => alts.map (·.1)
 
+
 def FSpec.owns (f : FSpec) (t : Tok) : Bool := f.nums.contains t.num
 
 /-- Bytes written for a bytes-like Go value. -/
@@ -235,14 +236,27 @@ def BytesKind.toWire : BytesKind → Option Bytes → Bytes
   | _, none => []
   | _, some b => b
 
+/-- Zero value of a bytes-like Go field (what an absent field decodes to). -/
+def BytesKind.zero : BytesKind → Option Bytes
+  | .str => some []
+  | _ => none
+
+/-- What a bytes-like Go value reads back as after a round trip. -/
+def BytesKind.norm : BytesKind → Bool → Option Bytes → Option Bytes
+  | .bytes, false, none => none
+  | .bytes, false, some [] => none
+  | .bytes, true, none => some []
+  | .str, _, none => some []
+  | .bigint, _, none => some [0x30]
+  | .bigint, _, some [] => some [0x30]
+  | _, _, some b => some b
+
 mutual
 /-- Zero value of a field (`T{}` in Go). -/
 def zeroField : FSpec → Value
   | .int _ _ _ => .int 0
-  | .bytes _ .str _ => .bytes (some [])
-  | .bytes _ _ _ => .bytes none
-  | .msg _ true _ => .msg none
-  | .msg _ false sub => .msg (some (zeroFields sub))
+  | .bytes _ k _ => .bytes k.zero
+  | .msg _ nullable sub => if nullable then .msg none else .msg (some (zeroFields sub))
   | .repBytes _ _ => .rep none
   | .repMsg _ _ => .rep none
   | .oneof _ => .one none
@@ -251,27 +265,41 @@ def zeroFields : List FSpec → List Value
   | f :: fs => zeroField f :: zeroFields fs
 end
 
+/-- One element of a `repeated bytes/string` field. -/
+def repBytesTok (num : Nat) (k : BytesKind) : Value → Tok
+  | .bytes ob => ⟨num, .len (k.toWire ob)⟩
+  | _ => ⟨num, .len []⟩
+
 mutual
 /-- `MarshalToSizedBuffer` for one field. -/
 def encField : FSpec → Value → List Tok
-  | .int num k always, .int n =>
-    let w := k.trunc n
-    if w = 0 ∧ always = false then [] else [⟨num, .varint w⟩]
-  | .bytes num k always, .bytes ob =>
-    let w := k.toWire ob
-    if w = [] ∧ always = false then [] else [⟨num, .len w⟩]
-  | .msg num _ sub, .msg (some vs) => [⟨num, .len (serToks (encFields sub vs))⟩]
-  | .msg num false _, _ => [⟨num, .len []⟩]
-  | .repBytes num k, .rep (some vs) =>
-    vs.map fun v => match v with
-      | .bytes ob => ⟨num, .len (k.toWire ob)⟩
-      | _ => ⟨num, .len []⟩
-  | .repMsg num sub, .rep (some vs) =>
-    vs.map fun v => match v with
-      | .msg (some fs) => ⟨num, .len (serToks (encFields sub fs))⟩
-      | _ => ⟨num, .len []⟩
-  | .oneof alts, .one (some (n, v)) => encAlts alts n v
-  | _, _ => []
+  | .int num k always, v =>
+    match v with
+    | .int n => if k.trunc n = 0 ∧ always = false then [] else [⟨num, .varint (k.trunc n)⟩]
+    | _ => []
+  | .bytes num k always, v =>
+    match v with
+    | .bytes ob => if k.toWire ob = [] ∧ always = false then [] else [⟨num, .len (k.toWire ob)⟩]
+    | _ => []
+  | .msg num nullable sub, v =>
+    match v with
+    | .msg (some vs) => [⟨num, .len (serToks (encFields sub vs))⟩]
+    | _ => if nullable then [] else [⟨num, .len []⟩]
+  | .repBytes num k, v =>
+    match v with
+    | .rep (some vs) => vs.map (repBytesTok num k)
+    | _ => []
+  | .repMsg num sub, v =>
+    match v with
+    | .rep (some vs) =>
+      vs.map fun e => match e with
+        | .msg (some fs) => ⟨num, .len (serToks (encFields sub fs))⟩
+        | _ => ⟨num, .len []⟩
+    | _ => []
+  | .oneof alts, v =>
+    match v with
+    | .one (some (n, v')) => encAlts alts n v'
+    | _ => []
 /-- `MarshalToSizedBuffer` of a message: its fields in schema (= field number) order. -/
 def encFields : List FSpec → List Value → List Tok
   | f :: fs, v :: vs => encField f v ++ encFields fs vs
@@ -293,26 +321,26 @@ def Tok.varintVal (t : Tok) : Option Nat := match t.p with | .varint n => some n
 /-- Last element's projection, with a default. -/
 def lastD {α} (l : List α) (d : α) : α := l.getLast?.getD d
 
+/-- Bytes-like field from the payloads of all its occurrences: last one wins; `BigInt.Unmarshal`
+ignores an empty payload. -/
+def BytesKind.pick : BytesKind → List Bytes → Option Bytes
+  | .bytes, bs => bs.getLast?
+  | .str, bs => some (lastD bs [])
+  | .bigint, bs => (bs.filter (· ≠ [])).getLast?
+
 mutual
 /-- The `case <num>:` arm(s) of a generated `Unmarshal`, applied to all tokens of a buffer. -/
 def decField : FSpec → List Tok → Option Value
   | .int num k _, toks =>
-    let own := toks.filter (·.num == num)
-    match own.mapM Tok.varintVal with
+    match (toks.filter (fun t => t.num == num)).mapM Tok.varintVal with
     | none => none   -- "wrong wireType"
     | some ns => some (.int (k.trunc (lastD ns 0)))
   | .bytes num k _, toks =>
-    let own := toks.filter (·.num == num)
-    match own.mapM Tok.lenBytes with
+    match (toks.filter (fun t => t.num == num)).mapM Tok.lenBytes with
     | none => none
-    | some bs =>
-      match k with
-      | .bytes => some (.bytes (bs.getLast?))
-      | .str => some (.bytes (some (lastD bs [])))
-      | .bigint => some (.bytes ((bs.filter (· ≠ [])).getLast?))
+    | some bs => some (.bytes (k.pick bs))
   | .msg num nullable sub, toks =>
-    let own := toks.filter (·.num == num)
-    match own.mapM Tok.lenBytes with
+    match (toks.filter (fun t => t.num == num)).mapM Tok.lenBytes with
     | none => none
     | some bs =>
       if bs = [] ∧ nullable = true then some (.msg none)
@@ -324,13 +352,11 @@ def decField : FSpec → List Tok → Option Value
           | none => none
           | some vs => some (.msg (some vs))
   | .repBytes num _, toks =>
-    let own := toks.filter (·.num == num)
-    match own.mapM Tok.lenBytes with
+    match (toks.filter (fun t => t.num == num)).mapM Tok.lenBytes with
     | none => none
     | some bs => if bs = [] then some (.rep none) else some (.rep (some (bs.map fun b => .bytes (some b))))
   | .repMsg num sub, toks =>
-    let own := toks.filter (·.num == num)
-    match own.mapM Tok.lenBytes with
+    match (toks.filter (fun t => t.num == num)).mapM Tok.lenBytes with
     | none => none
     | some bs =>
       if bs = [] then some (.rep none)
@@ -343,8 +369,7 @@ def decField : FSpec → List Tok → Option Value
         | none => none
         | some vs => some (.rep (some vs))
   | .oneof alts, toks =>
-    let own := toks.filter (fun t => (alts.map (·.1)).contains t.num)
-    match own.mapM (fun t => decAlts alts t) with
+    match (toks.filter (fun t => (alts.map (·.1)).contains t.num)).mapM (fun t => decAlts alts t) with
     | none => none
     | some sels => some (.one sels.getLast?)
 /-- Generated `Unmarshal` of a message, given the tokens of its buffer. -/
@@ -384,27 +409,41 @@ def decodeMsg (s : Schema) (b : Bytes) : Option (List Value) :=
 
 /-! ## The equality a round trip can have: nil ↔ empty, default ↔ absent -/
 
+/-- One element of a `repeated bytes/string` field after a round trip (a nil element comes back
+as an empty one). -/
+def normRepBytes (k : BytesKind) : Value → Value
+  | .bytes ob => .bytes (some (k.toWire ob))
+  | _ => .bytes (some [])
+
 mutual
 def normField : FSpec → Value → Value
-  | .int _ k _, .int n => .int (k.trunc n)
-  | .bytes _ .bytes false, .bytes (some []) => .bytes none
-  | .bytes _ .bytes true, .bytes none => .bytes (some [])
-  | .bytes _ .str _, .bytes none => .bytes (some [])
-  | .bytes _ .bigint _, .bytes none => .bytes (some [0x30])
-  | .bytes _ .bigint _, .bytes (some []) => .bytes (some [0x30])
-  | .bytes _ _ _, .bytes ob => .bytes ob
-  | .msg _ _ sub, .msg (some vs) => .msg (some (normFields sub vs))
-  | .msg _ false sub, _ => .msg (some (zeroFields sub))
-  | .repBytes _ k, .rep (some (v :: vs)) =>
-    .rep (some ((v :: vs).map fun v => match v with
-      | .bytes ob => .bytes (some (k.toWire ob))
-      | _ => .bytes (some [])))
-  | .repMsg _ sub, .rep (some (v :: vs)) =>
-    .rep (some ((v :: vs).map fun v => match v with
-      | .msg (some fs) => .msg (some (normFields sub fs))
-      | _ => .msg (some (zeroFields sub))))
-  | .oneof alts, .one (some (n, v)) => .one (normAlts alts n v)
-  | f, _ => zeroField f
+  | .int _ k _, v =>
+    match v with
+    | .int n => .int (k.trunc n)
+    | _ => .int 0
+  | .bytes _ k always, v =>
+    match v with
+    | .bytes ob => .bytes (k.norm always ob)
+    | _ => .bytes k.zero
+  | .msg _ nullable sub, v =>
+    match v with
+    | .msg (some vs) => .msg (some (normFields sub vs))
+    | _ => if nullable then .msg none else .msg (some (zeroFields sub))
+  | .repBytes _ k, v =>
+    match v with
+    | .rep (some (x :: xs)) => .rep (some ((x :: xs).map (normRepBytes k)))
+    | _ => .rep none
+  | .repMsg _ sub, v =>
+    match v with
+    | .rep (some (x :: xs)) =>
+      .rep (some ((x :: xs).map fun e => match e with
+        | .msg (some fs) => .msg (some (normFields sub fs))
+        | _ => .msg (some (zeroFields sub))))
+    | _ => .rep none
+  | .oneof alts, v =>
+    match v with
+    | .one (some (n, v')) => .one (normAlts alts n v')
+    | _ => .one none
 def normFields : List FSpec → List Value → List Value
   | [], _ => []
   | f :: fs, v :: vs => normField f v :: normFields fs vs
@@ -421,20 +460,22 @@ end
 
 /-! ## Well-formed schemas -/
 
+def numOK (n : Nat) : Bool := 0 < n && n < 536870912
+
 mutual
 def wfField : FSpec → Bool
-  | .int n _ _ => 0 < n && n < 536870912
-  | .bytes n _ _ => 0 < n && n < 536870912
-  | .msg n _ sub => 0 < n && n < 536870912 && wfFields sub && (allNums sub).Nodup
-  | .repBytes n _ => 0 < n && n < 536870912
-  | .repMsg n sub => 0 < n && n < 536870912 && wfFields sub && (allNums sub).Nodup
+  | .int n _ _ => numOK n
+  | .bytes n _ _ => numOK n
+  | .msg n _ sub => numOK n && wfFields sub && (allNums sub).Nodup
+  | .repBytes n _ => numOK n
+  | .repMsg n sub => numOK n && wfFields sub && (allNums sub).Nodup
   | .oneof alts => wfAlts alts
 def wfFields : List FSpec → Bool
   | [] => true
   | f :: fs => wfField f && wfFields fs
 def wfAlts : List (Nat × List FSpec) → Bool
   | [] => true
-  | (k, sub) :: rest => 0 < k && k < 536870912 && wfFields sub && (allNums sub).Nodup && wfAlts rest
+  | (k, sub) :: rest => numOK k && wfFields sub && (allNums sub).Nodup && wfAlts rest
 /-- All field numbers of one message level. -/
 def allNums : List FSpec → List Nat
   | [] => []
@@ -443,6 +484,7 @@ end
 
 /-- Field numbers are valid and pairwise distinct at every level. -/
 def wfSchema (s : Schema) : Bool := wfFields s && (allNums s).Nodup
+
 
 /-! ## Framing (`codec/proto_codec.go`) and `Any` -/
 
